@@ -61,7 +61,7 @@ def sweep_api(ctx, results):
         results["judgements"].append({"property": "C19", "key": v["key"], "what": v["what"], "replay": rp})
 
 
-def sweep_front(profile, n_quick, n_thorough, cats=None, corpus=None):
+def sweep_front(profile, n_quick, n_thorough, cats=None, corpus=None, compile=False):
     """model vs CLI on generated setup files; `cats` filters which kinds of difference matter"""
     def f(ctx, results):
         outp = os.path.join(ctx["scratch"], "front-%s-%d.json" % (profile, ctx["widen"]))
@@ -73,6 +73,8 @@ def sweep_front(profile, n_quick, n_thorough, cats=None, corpus=None):
             cmd += ["-corpus", cdir]
         if ctx.get("replay"):
             cmd += ["-only", ctx["replay"]]
+        if compile:
+            cmd += ["-compile"]
         rc, out = ctx["run"](cmd, cwd=ctx["scratch"])
         ctx["log"](out.strip()[-2000:])
         if not os.path.exists(outp):
@@ -158,6 +160,46 @@ RENDER = ["Convergen.Bridge.Render"]
 TABLES = ["Convergen.Bridge.Tables"]
 
 PROPS = {
+    "C01": {
+        "bridge": RENDER + TABLES,
+        "extra_modules": ["Convergen.Props.C04", "Convergen.Props.C16"],
+        "sweeps": [sweep_front("mixed", 200, 6000, cats=["body", "slice", "hook", "header", "errflow"], compile=True)],
+        "rule": FRONT_RULE % "mixed" + "; judge: every emitted file is compiled in its package (go build -gcflags=-e, setup file excluded "
+                "by its tag) and checked with gofmt -l",
+        "explanation": "what castNode returns is assignable / a String() of a Stringer where string is assignable / a conversion between "
+                       "convertible types (castNode_sound); slice statements only for assignable or (opted-in) convertible elements; "
+                       "the listed exclusions are witnessed as findings; partial: gofmt-cleanliness, import pruning and the printing "
+                       "of carried-over declarations are go/printer / goimports behaviour, seen by the sweep only",
+        "assumptions": ["Go's typing of the emitted fragment is judged by the compiler, not modelled (GoTyping is limited to castNode_sound and the slice decision)"],
+    },
+    "C03": {
+        "bridge": TABLES,
+        "sweeps": [sweep_front("layout", 200, 6000, cats=["exit", "missing-func"]),
+                   sweep_front("simple", 100, 3000, cats=["exit", "missing-func"])],
+        "rule": "well-formed setup files with unusual layouts (no comments, one-line interfaces, comments on brace lines, adjacent "
+                "declarations, several interfaces, CRLF, no final newline, directives in both spellings, surrounding declarations of "
+                "every kind) and well-formed notation mixes; judged: exit 0 and one function per method; distinct = distinct "
+                "generated function texts",
+        "explanation": "marker planting keeps every marker alone in its own comment group and the groups sorted, for all comment "
+                       "layouts and any number of interfaces (plantAll_sane); the cut and the replacement yield prefix ++ functions "
+                       "++ suffix (cut_spec, replace_spec); witness: the pre-repair insertion order merges the markers of a short "
+                       "interface; partial: go/printer and goimports are outside the model",
+        "assumptions": ["a 21-character nanoid does not occur in user text", "braces of different converter interfaces are at least 21 bytes apart (Go syntax of separately declared interfaces)"],
+    },
+    "C11": {
+        "bridge": TABLES,
+        "extra_modules": ["Convergen.Props.C03"],
+        "sweeps": [sweep_front("layout", 200, 6000, cats=["doc"])],
+        "rule": "layout-focused setup files (declarations of every kind around and between converter interfaces, doc/line/block "
+                "comments in every position, both constraint spellings, go:generate lines); judged on the AST: every non-converter "
+                "declaration present unchanged (code), every comment line except directives / converter docs / notation lines "
+                "present, no directive in the output, function docs = non-notation lines of the method's own comment",
+        "explanation": "a method's doc is the Doc of its own field, the package doc is never consumed (method_doc_is_own, "
+                       "file_doc_never_used); extraction touches one group and removes exactly the notation lines; directive-only "
+                       "groups become empty; cut/replace from C03; partial: text between declarations is go/printer's, unused "
+                       "imports are goimports'",
+        "assumptions": ["only the two documented spellings of the pure convergen constraint are claimed (compound constraints are outside the stated quantifier)"],
+    },
     "C04": {
         "bridge": RENDER + TABLES,
         "sweeps": [sweep_front("matching", 150, 4000, cats=["body", "slice", "stderr"])],
